@@ -1,8 +1,15 @@
 //! C07: determinant and inverse through every entry point.
 //!   (7 op ty (n0 n1) rows cols (x ...) (pr pc))      op 1 = determinant, 2 = inverse,
-//!   3 = determinant + inverse presence at f64 on small-integer entries (result: exact integer)
+//!   3 = determinant + inverse presence at f64 on small-integer entries (result: exact integer),
+//!   4 = the same on the entries scaled by 2^-k (k = the `ty` field, 0..=60): every product and
+//!   partial sum is still exact, so the f64 determinant must be det(ints) * 2^(-k n) exactly and
+//!   the inverse present exactly when det(ints) != 0, however tiny the determinant is
+//!   5 = FLOAT tier (ty 0 = f64, 1 = f32, +2 = marked well-conditioned): entries (m k) = m / 10^k;
+//!   compared with the model: determinant presence; checked here: see `float_tier`
 //!   ty 0 = Rat, 1 = Fp, 2 = Wrapping<i64> (ring, not a field), 3 = Trace<Rat> (dual numbers;
-//!   `==` of Trace compares numbers only, so every comparison here is made on ENCODINGS)
+//!   `==` of Trace compares numbers only, so every comparison here is made on ENCODINGS),
+//!   4 = StrictRat (c08/strict.rs: Rat whose `/` PANICS on a zero divisor; the model runs the
+//!   division-instrumented inverse and predicts value / absence / panic `(2)`)
 //! Result: (matrix-route tensor-route); see coq/theories/Run/RunC07.v.
 //! Matrix forms: Matrix::{determinant, inverse}, linear_algebra::{determinant, inverse}.
 //! Tensor forms (all must agree, checked here): Tensor method, linear_algebra::*_tensor on
@@ -24,6 +31,10 @@ use easy_ml::numeric::{Numeric, NumericRef};
 use easy_ml::tensors::views::{IndexRange, TensorView};
 use easy_ml::tensors::Tensor;
 
+#[path = "c08/strict.rs"]
+mod strict;
+use strict::StrictRat;
+
 /// Element types of C07 and their encodings (own trait: Enc for Wrapping<i64> belongs to c03.rs).
 trait El: Sized + Clone {
     /// exact field: A * A^-1 = I is checked
@@ -37,6 +48,13 @@ impl El for Rat {
     fn e(&self) -> Sx { self.enc() }
     fn d(s: &Sx) -> Option<Self> { <Rat as Enc>::dec(s) }
     fn sm(v: i64) -> Self { <Rat as Enc>::small(v) }
+}
+/// tag 4: exact rationals whose `/` panics on a zero divisor (harness/src/c08/strict.rs)
+impl El for StrictRat {
+    const FIELD: bool = true;
+    fn e(&self) -> Sx { self.enc() }
+    fn d(s: &Sx) -> Option<Self> { <StrictRat as Enc>::dec(s) }
+    fn sm(v: i64) -> Self { <StrictRat as Enc>::small(v) }
 }
 impl El for Fp {
     const FIELD: bool = true;
@@ -75,8 +93,115 @@ impl El for f64 {
             l(vec![z(-77), z(self.to_bits())])
         }
     }
-    fn d(s: &Sx) -> Option<Self> { Some(s.i64()? as f64) }
+    fn d(s: &Sx) -> Option<Self> {
+        // an integer, (-77 bits) = the bit pattern, or (m k) = m * 2^-k
+        if let Some(p) = s.list() {
+            if p.len() != 2 {
+                return None;
+            }
+            if p[0].i64() == Some(-77) {
+                return Some(f64::from_bits(p[1].int()?.to_u64()?));
+            }
+            return Some(p[0].i64()? as f64 * 2f64.powi(-(p[1].i64()? as i32)));
+        }
+        Some(s.i64()? as f64)
+    }
     fn sm(v: i64) -> Self { v as f64 }
+}
+
+/// f32 (op 5 only): an integral value is its integer, anything else `(-78 bits)`
+impl El for f32 {
+    const FIELD: bool = false;
+    fn e(&self) -> Sx {
+        if self.fract() == 0.0 && self.abs() < 1.0e7 {
+            z(*self as i64)
+        } else {
+            l(vec![z(-78), z(self.to_bits())])
+        }
+    }
+    fn d(s: &Sx) -> Option<Self> {
+        if let Some(p) = s.list() {
+            if p.len() != 2 || p[0].i64() != Some(-78) {
+                return None;
+            }
+            return Some(f32::from_bits(p[1].int()?.to_u32()?));
+        }
+        Some(s.i64()? as f32)
+    }
+    fn sm(v: i64) -> Self { v as f32 }
+}
+
+fn dec_float(s: &Sx) -> Option<f64> {
+    if let Some(v) = s.i64() {
+        return Some(v as f64);
+    }
+    let p = s.list()?;
+    if p.len() != 2 {
+        return None;
+    }
+    match p[0].i64()? {
+        -77 => Some(f64::from_bits(p[1].int()?.to_u64()?)),
+        -78 => Some(f32::from_bits(p[1].int()?.to_u32()?) as f64),
+        _ => None,
+    }
+}
+
+/// op 5: the FLOAT tier.  Entries (m k) = m / 10^k evaluated in the float type T.  Compared with
+/// the model: presence of the determinant (= square).  Checked here (rounding-independent):
+/// every determinant entry point returns the same bits; every inverse entry point of a route
+/// returns the same bits; the inverse of EACH route is present exactly when the crate's own
+/// determinant of the same input is present and `!= 0` (codes 740 / 741 inside `go`); Matrix and
+/// tensor routes agree on presence (751); for inputs the generator marks well-conditioned the
+/// inverse must be present and A X = I = X A within `tol` (760 / 761).
+fn float_tier<T>(wc: bool, tol: f64, nm: (usize, usize), rows: usize, cols: usize, vals: Vec<T>, pd: (usize, usize)) -> Sx
+where
+    T: Numeric + El + PartialEq + Copy + Into<f64>,
+    for<'a> &'a T: NumericRef<T>,
+{
+    let data = l(vals.iter().map(|v| v.e()).collect());
+    let det = go::<T>(1, nm, rows, cols, &data, pd);
+    let inv = go::<T>(2, nm, rows, cols, &data, pd);
+    let (Some(d), Some(i)) = (det.list(), inv.list()) else { return det };
+    if d.len() != 2 || d[0].int() == Some(&BigInt::from(-8)) {
+        return det;
+    }
+    if i.len() != 2 || i[0].int() == Some(&BigInt::from(-8)) {
+        return inv;
+    }
+    if d[0] != d[1] {
+        return inconsistent(750);
+    }
+    let present = |x: &Sx| x.list().is_some_and(|v| !v.is_empty());
+    if present(&i[0]) != present(&i[1]) {
+        return inconsistent(751);
+    }
+    if wc && rows == cols {
+        // ((shape data)) of the tensor route
+        let x: Option<Vec<f64>> = i[1]
+            .list()
+            .and_then(|v| v.first())
+            .and_then(|t| t.list())
+            .and_then(|t| t.get(1))
+            .and_then(|dd| dd.list())
+            .and_then(|dd| dd.iter().map(dec_float).collect());
+        let Some(x) = x else { return inconsistent(760) };
+        if x.len() != rows * rows {
+            return inconsistent(760);
+        }
+        let a: Vec<f64> = vals.iter().map(|v| (*v).into()).collect();
+        let n = rows;
+        for r in 0..n {
+            for c in 0..n {
+                let ax: f64 = (0..n).map(|k| a[r * n + k] * x[k * n + c]).sum();
+                let xa: f64 = (0..n).map(|k| x[r * n + k] * a[k * n + c]).sum();
+                let want = if r == c { 1.0 } else { 0.0 };
+                if !((ax - want).abs() <= tol) || !((xa - want).abs() <= tol) {
+                    return inconsistent(761);
+                }
+            }
+        }
+    }
+    l(vec![boolean(present(&d[1]))])
 }
 
 pub fn run(args: &[Sx]) -> Sx {
@@ -100,17 +225,52 @@ pub fn run(args: &[Sx]) -> Sx {
         return bad_case();
     }
     let (nm, pd) = ((names[0], names[1]), (pad[0], pad[1]));
-    if op == 3 {
-        // f64 on small integers: determinant (all forms, bit for bit) and inverse presence
-        if ty != 0 || rows > 6 || cols > 6 {
+    if op == 5 {
+        // float tier: ty 0 = f64, 1 = f32, +2 = marked well-conditioned by the generator
+        if !(0..=3).contains(&ty) || rows > 6 || cols > 6 {
             return bad_case();
         }
-        match args[5].i64s() {
-            Some(v) if v.iter().all(|x| x.abs() <= 3) => {}
-            _ => return bad_case(),
+        let f32_ = ty % 2 == 1;
+        let kmax = if f32_ { 30 } else { 200 };
+        let Some(items) = args[5].list() else { return bad_case() };
+        let mut mk = Vec::with_capacity(items.len());
+        for it in items {
+            let Some(p) = it.list() else { return bad_case() };
+            if p.len() != 2 {
+                return bad_case();
+            }
+            let (Some(m), Some(k)) = (p[0].i64(), p[1].i64()) else { return bad_case() };
+            if m.abs() > 1_000_000 || !(0..=kmax).contains(&k) {
+                return bad_case();
+            }
+            mk.push((m, k as i32));
         }
-        let det = go::<f64>(1, nm, rows, cols, &args[5], pd);
-        let inv = go::<f64>(2, nm, rows, cols, &args[5], pd);
+        if mk.len() != rows * cols {
+            return bad_case();
+        }
+        return if f32_ {
+            let vals: Vec<f32> = mk.iter().map(|(m, k)| *m as f32 / 10f32.powi(*k)).collect();
+            float_tier::<f32>(ty >= 2, 1e-3, nm, rows, cols, vals, pd)
+        } else {
+            let vals: Vec<f64> = mk.iter().map(|(m, k)| *m as f64 / 10f64.powi(*k)).collect();
+            float_tier::<f64>(ty >= 2, 1e-9, nm, rows, cols, vals, pd)
+        };
+    }
+    if op == 3 || op == 4 {
+        // f64 on small integers (op 4: scaled by 2^-k, k = the `ty` field): determinant (all
+        // forms, bit for bit) and inverse presence
+        let k = if op == 4 { ty } else { 0 };
+        if (op == 3 && ty != 0) || !(0..=60).contains(&k) || rows > 6 || cols > 6 {
+            return bad_case();
+        }
+        let ints = match args[5].i64s() {
+            Some(v) if v.iter().all(|x| x.abs() <= 3) => v,
+            _ => return bad_case(),
+        };
+        // entries as (m k) = m * 2^-k (exact)
+        let scaled = l(ints.iter().map(|m| l(vec![z(*m), z(k)])).collect());
+        let det = go::<f64>(1, nm, rows, cols, &scaled, pd);
+        let inv = go::<f64>(2, nm, rows, cols, &scaled, pd);
         let (Some(d), Some(i)) = (det.list(), inv.list()) else { return det };
         if d.len() != 2 || d[0].int() == Some(&BigInt::from(-8)) {
             return det;
@@ -125,13 +285,37 @@ pub fn run(args: &[Sx]) -> Sx {
         if present(&i[0]) != present(&i[1]) {
             return inconsistent(751);
         }
-        return l(vec![d[1].clone(), boolean(present(&i[1]))]);
+        // the determinant of the scaled matrix is det(ints) * 2^(-k n) exactly: report det(ints)
+        let unscaled = match d[1].list() {
+            Some([]) => nil(),
+            Some([x]) => {
+                let v = match (x.i64(), x.list()) {
+                    (Some(v), _) => v as f64,
+                    (None, Some([tag, bits])) if tag.i64() == Some(-77) => {
+                        match bits.int().and_then(|b| b.to_u64()) {
+                            Some(b) => f64::from_bits(b),
+                            None => return inconsistent(752),
+                        }
+                    }
+                    _ => return inconsistent(752),
+                };
+                let w = v * 2f64.powi((k as i32) * (rows as i32));
+                l(vec![w.e()])
+            }
+            _ => return inconsistent(752),
+        };
+        return l(vec![unscaled, boolean(present(&i[1]))]);
     }
     match ty {
         0 => go::<Rat>(op, nm, rows, cols, &args[5], pd),
         1 => go::<Fp>(op, nm, rows, cols, &args[5], pd),
         2 => go::<Wrapping<i64>>(op, nm, rows, cols, &args[5], pd),
         3 => go::<Trace<Rat>>(op, nm, rows, cols, &args[5], pd),
+        // a panic of any entry point (a division by zero of StrictRat, or anything else): `(2)`
+        4 => match crate::guarded(|| go::<StrictRat>(op, nm, rows, cols, &args[5], pd)) {
+            Some(r) => r,
+            None => panicked(),
+        },
         _ => bad_case(),
     }
 }
